@@ -30,12 +30,22 @@ def pick_shape(size: int, rng: random.Random) -> tuple:
     return rng.choice(SHAPES.get(size, [(size,)]))
 
 
+def relayout(x: torch.Tensor, layout: int) -> torch.Tensor:
+    """Memory layout is a presentation matter as well: layout 1 = the same values and shape held with
+    reversed (column-major) strides, as a transposed weight or a channels-last tensor is; the
+    flattened row-major reading x.reshape(-1) is unchanged."""
+    if layout == 0 or x.dim() < 2:
+        return x
+    perm = list(range(x.dim()))[::-1]
+    return x.permute(perm).contiguous().permute(perm)
+
+
 class Built:
     """A program realised with real tensors."""
 
     def __init__(self, prog: list[dict], dtype=torch.float64, rng: random.Random | None = None,
                  shapes: list | None = None, scalars: tuple | list = (), real: list | None = None,
-                 other_dtype_leaves: tuple | list = (), perturb: float = 0.0):
+                 other_dtype_leaves: tuple | list = (), perturb: float = 0.0, layouts: list | None = None):
         """``perturb``: added (times 1, 2, 3, ...) to the leaf values - with 2**-29 the values need more than 24
         mantissa bits, so any internal round trip through float32 becomes visible at float64 accuracy."""
         """``scalars``: node ids (1-based) that must be 0-d tensors (losses of mtl_backward)."""
@@ -48,6 +58,8 @@ class Built:
         # how each op node is realised with torch (same abstract semantics, different autograd nodes);
         # a twin graph is built with the same list
         self.real: list[int] = list(real) if real else []
+        # memory layout of every leaf (0 contiguous, 1 reversed strides); a twin is built with the same list
+        self.layouts: list[int] = []
         for idx, nd in enumerate(prog):
             op = nd["op"]
             if op == "leaf":
@@ -57,9 +69,12 @@ class Built:
                 ldt = dtype if (idx + 1) not in set(other_dtype_leaves) else (
                     torch.float32 if dtype == torch.float64 else torch.float64)
                 x = torch.tensor([float(v) + perturb * (1 + (j + idx) % 3) for j, v in enumerate(nd["val"])], dtype=ldt).reshape(shape)
+                lay = layouts[idx] if layouts is not None else (0 if shapes else (1 if rng.random() < 0.35 else 0))
+                x = relayout(x, lay)
                 x.requires_grad_(bool(nd["rg"]))
                 self.t.append(x)
                 self.shapes.append(shape)
+                self.layouts.append(lay)
                 continue
             a = self.t[nd["a"] - 1]
             how = self.real[idx] if idx < len(self.real) else rng.randrange(3)
@@ -69,6 +84,7 @@ class Built:
             shape = tuple(shapes[idx]) if shapes else (() if (idx + 1) in scalars else pick_shape(y.numel(), rng))
             self.t.append(y.reshape(shape))
             self.shapes.append(shape)
+            self.layouts.append(0)
 
     def _apply(self, nd: dict, a, b, how: int):
         """One abstract op on flattened operands, realised in one of several equivalent torch forms."""
@@ -128,9 +144,11 @@ class Built:
     def flat_vals(self) -> list[list[float]]:
         return [x.detach().reshape(-1).tolist() for x in self.t]
 
-    def set_grad(self, i: int, flat: list) -> None:
+    def set_grad(self, i: int, flat: list, layout: int | None = None) -> None:
+        """A pre-existing .grad; by default laid out like the leaf (what torch's own backward leaves)."""
         x = self.node(i)
-        x.grad = torch.tensor([float(v) for v in flat], dtype=x.dtype).reshape(x.shape)
+        lay = self.layouts[i - 1] if layout is None else layout
+        x.grad = relayout(torch.tensor([float(v) for v in flat], dtype=x.dtype).reshape(x.shape), lay)
 
     def grad_flat(self, i: int):
         g = self.node(i).grad
